@@ -42,6 +42,9 @@ def make_pki(d):
             shutil.copy(d + '/third.root.pem', '%s/third.certdir/%s.0' % (d, h))
     except (OSError, subprocess.SubprocessError):
         pass
+    # root files holding two certificates: the file stands for its first certificate
+    open(d + '/bundle-rw.pem', 'w').write(open(d + '/right.root.pem').read() + open(d + '/wrong.root.pem').read())
+    open(d + '/bundle-wr.pem', 'w').write(open(d + '/wrong.root.pem').read() + open(d + '/right.root.pem').read())
     open(d + '/empty.pem', 'w').close()
     open(d + '/garbage.pem', 'w').write('-----BEGIN CERTIFICATE-----\nthis is not base64\n-----END CERTIFICATE-----\n')
     open(d + '/text.pem', 'w').write('hello\n')
@@ -69,7 +72,8 @@ def run_case(case):
         if src == 'right' and case.get('withdraw'):
             return case['_dir'] + '/own-root.pem'      # a private copy, replaced while the daemon runs
         return {'right': pki + '/right.root.pem', 'wrong': pki + '/wrong.root.pem', 'missing': pki + '/does-not-exist.pem',
-                'empty': pki + '/empty.pem', 'garbage': pki + '/garbage.pem', 'text': pki + '/text.pem'}[src]
+                'empty': pki + '/empty.pem', 'garbage': pki + '/garbage.pem', 'text': pki + '/text.pem',
+                'bundle-rw': pki + '/bundle-rw.pem', 'bundle-wr': pki + '/bundle-wr.pem'}[src]
     extra_args = []
     if case['cli'] != 'none':
         extra_args += ['--root-cert', path_of(case['cli'])]
@@ -118,13 +122,14 @@ def run_case(case):
     for src in case.get('included_globals') or []:
         if src != 'none':
             eff_global = src
-    sources = [case['cli'], case['endpoint'], eff_global]
+    first_of = {'bundle-rw': 'right', 'bundle-wr': 'wrong'}
+    sources = [first_of.get(x, x) for x in (case['cli'], case['endpoint'], eff_global)]
     broken = [s for s in sources if s in ('missing', 'empty', 'garbage', 'text')]
     chain_ok = case['server'] in ('valid', 'valid-inter', 'other-root', 'unlisted-root')      # right name, currently valid
     need = SERVER_ROOT[case['server']]
     trusted1 = chain_ok and need in sources and not broken
     # second endpoint: no endpoint-level roots of its own; it sees the command line and global sources only
-    src2 = [case['cli'], eff_global]
+    src2 = [first_of.get(x, x) for x in (case['cli'], eff_global)]
     trusted2 = chain_ok and need in src2 and not [s for s in src2 if s in ('missing', 'empty', 'garbage', 'text')]
     n_certs = 2 if case.get('second_endpoint') else 1
     plan = {'default': {'lifetimes_s': [LONG] if not case.get('withdraw') else [100] * 30, 'chain_lens': [1]}}
@@ -249,6 +254,17 @@ def gen(tier, r, pki):
         cases = keep[:140]
         r.shuffle(broken)
         broken = broken[:24]
+    # root files with two certificates; the same path given twice with a broken file after it
+    multi = []
+    for where in ('cli', 'endpoint', 'global'):
+        for kind in ('bundle-rw', 'bundle-wr'):
+            c = {'server': 'valid', 'by_name': where != 'cli', 'cli': 'none', 'endpoint': 'none', 'global': 'none'}
+            c[where] = kind
+            multi.append(c)
+    for bad in ('garbage', 'missing', 'empty'):
+        multi.append({'server': 'valid', 'by_name': True, 'cli': 'right', 'endpoint': 'right', 'global': bad})
+        multi.append({'server': 'valid', 'by_name': False, 'cli': 'none', 'endpoint': 'right', 'global': 'right', 'included_globals': [bad]})
+    multi.append({'server': 'valid', 'by_name': True, 'cli': 'right', 'endpoint': 'right', 'global': 'right'})
     # the global list defined in the main file and again in included files
     incl = []
     for main, inc in (('right', ['wrong']), ('wrong', ['right']), ('right', ['none', 'wrong']), ('none', ['right', 'wrong']), ('none', ['wrong', 'right']),
@@ -271,7 +287,7 @@ def gen(tier, r, pki):
             c = {'server': 'valid', 'by_name': True, 'cli': 'none', 'endpoint': 'none', 'global': 'none', 'withdraw': kind}
             c[where] = 'right'
             wd.append(c)
-    cases = cases + broken + leak + henv + wd + incl
+    cases = cases + broken + leak + henv + wd + incl + multi
     for i, c in enumerate(cases):
         c['i'] = i
         c['pki'] = pki
@@ -320,7 +336,7 @@ def run(tier):
     chk.exhaustive = (tier == 'thorough')
     chk.rule = ('(server chain: valid, valid through an intermediate, unlisted root, other host name, expired, not yet valid) x (URL by name / by IP) x '
                 '(--root-cert, endpoint root_certificates, global root_certificates each carrying nothing / the right root / a wrong root)%s, plus missing / empty / '
-                'malformed root files at each source, two endpoints of which only one lists the root, CA bundles named in the hooks\' environment tables (SSL_CERT_FILE / SSL_CERT_DIR at global, certificate and account level), root files withdrawn / damaged / replaced / re-linked while the daemon runs, the global list redefined in included files; distinct = combinations for which the TLS mock CA saw a '
+                'malformed root files at each source, two endpoints of which only one lists the root, CA bundles named in the hooks\' environment tables (SSL_CERT_FILE / SSL_CERT_DIR at global, certificate and account level), root files withdrawn / damaged / replaced / re-linked while the daemon runs, the global list redefined in included files, root files holding two certificates, the same path listed twice before a broken file; distinct = combinations for which the TLS mock CA saw a '
                 'handshake attempt or a request' % ('' if tier == 'thorough' else ' (stratified sample)'))
     chk.assumptions = ['the system trust store does not contain the generated roots', 'a request logged by the TLS mock CA implies a completed handshake']
     code = chk.finish()
